@@ -13,6 +13,7 @@
 #include "llvm/Support/SourceMgr.h"
 #include "llvm/Support/raw_ostream.h"
 #include "llvm/ADT/MapVector.h"
+#include "llvm/ADT/SmallString.h"
 #include <map>
 #include <string>
 using namespace llvm;
@@ -54,7 +55,7 @@ static void opnd(raw_ostream &o, const Value *v, Ctx &C) {
   if (auto *bb = dyn_cast<BasicBlock>(v)) { o << "{\"k\":\"bb\",\"v\":" << C.bbs[bb] << "}"; return; }
   if (auto *ci = dyn_cast<ConstantInt>(v)) {
     if (ci->getBitWidth() <= 64) o << "{\"k\":\"c\",\"v\":" << ci->getSExtValue() << ",\"w\":" << ci->getBitWidth() << "}";
-    else o << "{\"k\":\"c\",\"v\":null,\"w\":" << ci->getBitWidth() << "}";
+    else { llvm::SmallString<64> str; ci->getValue().toString(str, 10, false); o << "{\"k\":\"c\",\"v\":" << str.c_str() << ",\"w\":" << ci->getBitWidth() << "}"; }
     return;
   }
   if (auto *f = dyn_cast<Function>(v)) { o << "{\"k\":\"f\",\"v\":\"" << esc(f->getName()) << "\"}"; return; }
